@@ -206,26 +206,46 @@ func (m *Mask) maskValue(value, buf []byte) ([]byte, bool) {
 	buf = buf[:0]
 
 	prevFinish := 0
-	curStart, curFinish := 0, 0
+	var sectionsArr [8][2]int
 	for _, index := range indexes {
+		// sections of the match selected by the groups, in the text order:
+		// groups may be listed in any order, be nested or not take part in the match
+		sections := sectionsArr[:0]
 		for _, grp := range m.Groups {
-			curStart = index[grp*2]
-			curFinish = index[grp*2+1]
-			if curStart < 0 || curFinish < 0 { // invalid idx check
+			start, finish := index[grp*2], index[grp*2+1]
+			if start < 0 || finish < 0 { // the group doesn't take part in the match
 				continue
 			}
+			sections = append(sections, [2]int{start, finish})
+			for i := len(sections) - 1; i > 0; i-- {
+				a, b := sections[i-1], sections[i]
+				if a[0] < b[0] || (a[0] == b[0] && a[1] <= b[1]) {
+					break
+				}
+				sections[i-1], sections[i] = b, a
+			}
+		}
 
-			buf = append(buf, value[prevFinish:curStart]...)
-			prevFinish = curFinish
+		for _, section := range sections {
+			start, finish := section[0], section[1]
+			if start < prevFinish { // overlaps with the section that is already masked
+				if finish <= prevFinish {
+					continue
+				}
+				start = prevFinish
+			}
+
+			buf = append(buf, value[prevFinish:start]...)
+			prevFinish = finish
 
 			buf = m.maskSection(
 				buf,
 				value,
-				curStart,
-				curFinish,
+				start,
+				finish,
 			)
 		}
 	}
 
-	return append(buf, value[curFinish:]...), true
+	return append(buf, value[prevFinish:]...), true
 }
